@@ -138,4 +138,32 @@ PROPS = {
             {"name": "c12.bbc-multi", "pkg": BBC, "test": "TestVerifC12BBCMulti", "shards_t": 8},
         ],
     },
+    "C04": {
+        "level": "exploration",
+        "technique": "structured boundary-value enumeration of every length/count field + truncation at every offset, run in disposable child processes with an allocation and time oracle; native coverage-guided fuzzing per decoder (thorough)",
+        "level_text": "For each decoder valid messages are generated and every position at which a length or count is read is set to each of the 11 boundary values (one at a time and sampled pairs), plus every truncation; each input runs in a disposable child (6 GiB address-space limit) that reports allocation and time, so process death, escaping panics, hangs and allocation proportional to an unarrived length are all observable.",
+        "level_note": "allocation budget 4 MiB + 256 x len(input) (16 MiB for BBC because of the xz dictionary); cboring's documented pre-allocation of up to 1 MiB for a declared string is inside the budget; inputs up to 64 KiB",
+        "assumptions": ["a panic recovered by the code's own recover() in the MTCP handlers drops the connection as designed and is not a violation"],
+        "units": [
+            {"name": "c04.bundle", "pkg": BPV7, "test": "TestVerifC04Bundle", "shards_q": 4, "shards_t": 8},
+            {"name": "c04.adminrecord", "pkg": BPV7, "test": "TestVerifC04AdminRecord"},
+            {"name": "c04.eid", "pkg": BPV7, "test": "TestVerifC04EID"},
+            {"name": "c04.buildfrommap", "pkg": BPV7, "test": "TestVerifC04BuildFromMap"},
+            {"name": "c04.tcpcl-message", "pkg": MSGS, "test": "TestVerifC04Messages"},
+            {"name": "c04.tcpcl-mru", "pkg": UTILS, "test": "TestVerifC04MRU", "timeout_q": 900},
+            {"name": "c04.tcpcl-stream", "pkg": UTILS, "test": "TestVerifC04Stream"},
+            {"name": "c04.mtcp-conn", "pkg": MTCP, "test": "TestVerifC04Conn"},
+            {"name": "c04.bbc-fragments", "pkg": BBC, "test": "TestVerifC04Fragments"},
+            {"name": "c04.announcements", "pkg": DISCOVERY, "test": "TestVerifC04Announcements"},
+            {"name": "c04.wam", "pkg": AGENT, "test": "TestVerifC04Wam"},
+            {"name": "c04.rest-build", "pkg": AGENT, "test": "TestVerifC04Rest"},
+            {"name": "c04.rest-raw", "pkg": AGENT, "test": "TestVerifC04RestRaw"},
+            {"name": "c04.fuzz-bundle", "pkg": BPV7, "kind": "fuzz", "fuzz": "FuzzVerifC04Bundle", "seconds": 150, "tiers": ["thorough"]},
+            {"name": "c04.fuzz-adminrecord", "pkg": BPV7, "kind": "fuzz", "fuzz": "FuzzVerifC04AdminRecord", "seconds": 60, "tiers": ["thorough"]},
+            {"name": "c04.fuzz-tcpcl", "pkg": MSGS, "kind": "fuzz", "fuzz": "FuzzVerifC04Messages", "seconds": 90, "tiers": ["thorough"]},
+            {"name": "c04.fuzz-announcements", "pkg": DISCOVERY, "kind": "fuzz", "fuzz": "FuzzVerifC04Announcements", "seconds": 60, "tiers": ["thorough"]},
+            {"name": "c04.fuzz-wam", "pkg": AGENT, "kind": "fuzz", "fuzz": "FuzzVerifC04Wam", "seconds": 60, "tiers": ["thorough"]},
+            {"name": "c04.fuzz-bbc", "pkg": BBC, "kind": "fuzz", "fuzz": "FuzzVerifC04Fragments", "seconds": 90, "tiers": ["thorough"]},
+        ],
+    },
 }
